@@ -225,7 +225,7 @@ def run(ctx):
                 forced.append(json.load(open(os.path.join(cdir, f))))
     if forced:
         judge(ctx, "forced", [rerun(s) for s in forced], rerun)
-    n_live, n_raw = (20, 20) if ctx.quick else (300, 300)
+    n_live, n_raw = (40, 40) if ctx.quick else (400, 400)
     live = ctx.vh_jsonl(vh, "namespaces", ["-mode", "live", "-seed", ctx.seed, "-n", n_live, "-ops", 30, "-par", 6])
     if live is not None:
         judge(ctx, "live", live, rerun)
